@@ -13,7 +13,7 @@ import json
 
 from harness.common import Model, canon
 
-FACTS = ()
+FACTS = ("tables", "parser", "c02", "c05", "c06", "c08", "c09")
 
 RULE = ("exhaustive texts over {a, newline} up to the tier's length bound with every offset "
         "0..len+1, plus seeded random texts over {a, \\n, \\r, \\x0b, \\x0c, U+2028, U+1F600}; "
@@ -90,6 +90,7 @@ def run(chk, runner_ok):
         chk.correspond("POSITION", pcases, impl, outs)
     entity_positions(chk)
     check_positions(chk)
+    android_positions(chk)
     lint_positions(chk)
 
 
@@ -242,6 +243,42 @@ def check_positions(chk):
     finally:
         shutil.rmtree(tmp, ignore_errors=True)
     chk.notes.append(f"CHECK-POS: {n_msgs} check messages with positions examined")
+
+
+def android_positions(chk):
+    """Android check positions are (0, offset into the string value): the offset must lie inside
+    the LOCALIZED value"""
+    from compare_locales.checks import getChecker
+    from compare_locales.paths import File
+    from compare_locales import parser
+    rng = chk.rng
+    toks = ["%1$s", "%1$d", "%2$s", "%s", "%d", " some text ", "it\\'s", "'", "x"]
+    n = 0
+
+    def doc(v):
+        return ('<?xml version="1.0" encoding="utf-8"?>\n<resources>\n  <string name="a">%s</string>\n'
+                '</resources>\n' % v)
+    for _ in range(chk.n(400, 4000)):
+        rv = "".join(rng.choice(toks) for _ in range(rng.randint(1, 5)))
+        lv = "".join(rng.choice(toks) for _ in range(rng.randint(1, 3)))
+        p = parser.getParser("strings.xml")
+        p.readContents(doc(rv).encode("utf-8"))
+        ref = [e for e in p.walk() if isinstance(e, parser.Entity)]
+        p.readContents(doc(lv).encode("utf-8"))
+        l10n = [e for e in p.walk() if isinstance(e, parser.Entity)]
+        if not ref or not l10n:
+            continue
+        checker = getChecker(File("strings.xml", "strings.xml", locale="de"))
+        for tp, pos, msg, cat in checker.check(ref[0], l10n[0]):
+            n += 1
+            chk.evaluations += 1
+            if isinstance(pos, int) and not type(pos).__name__ == "EntityPos":
+                if not (0 <= pos <= len(l10n[0].val)):
+                    sig = ("android-reference-conflict-position" if msg.startswith("Conflicting formatting")
+                           else "check-position-out-of-bounds")
+                    chk.fail(sig, {"file": "strings.xml", "reference_value": rv, "l10n_value": lv,
+                                   "message": msg}, {"position": int(pos), "l10n_value_length": len(l10n[0].val)})
+    chk.notes.append(f"ANDROID-POS: {n} Android check results examined")
 
 
 def lint_positions(chk):
